@@ -5,7 +5,8 @@
    (Gen/GrayConst.v). *)
 From Coq Require Import NArith QArith List Bool.
 From Coq Require Import Reals.
-From KV Require Mod.PSKGeomR.
+From Coq Require Import ZArith.
+From KV Require Mod.PSKGeomR Mod.GridGeom.
 From KV Require Import Gen.GrayConst Mod.Gray Mod.GrayFacts Mod.Constellation Mod.ConstellationFacts.
 Import ListNotations.
 
@@ -88,3 +89,18 @@ Theorem C14_psk_two_neighbours_and_distinct : forall M d : nat, (2 <= M)%nat ->
   PSKGeomR.chord2 M (M - 1) = PSKGeomR.chord2 M 1 /\ ((1 <= d)%nat -> (d <= M - 1)%nat -> (0 < PSKGeomR.chord2 M d)%R).
 Proof. intros M d HM. split; [now apply PSKGeomR.psk_two_neighbours_equal|intros; now apply PSKGeomR.psk_points_distinct]. Qed.
 Print Assumptions C14_psk_two_neighbours_and_distinct.
+
+(* square grids (QAM) of EVERY order 4^h: the nearest grid points of (i, j) are exactly its four axis neighbours, and the Gray label
+   bits(gray i) ++ bits(gray j) of an axis neighbour differs in exactly one bit (the label-table model Mod/Labels.v uses b2g, which is
+   gray outside the regenerated special cases: C14_code_regular_inputs) *)
+Theorem C14_grid_nearest_points : forall i j i' j' : Z, (i <> i' \/ j <> j') ->
+  (4 <= GridGeom.gd2 i j i' j')%Z /\
+  (GridGeom.gd2 i j i' j' = 4%Z <-> (Z.abs (i - i') = 1 /\ j = j')%Z \/ (i = i' /\ Z.abs (j - j') = 1)%Z).
+Proof. exact GridGeom.grid_nearest. Qed.
+Print Assumptions C14_grid_nearest_points.
+
+Theorem C14_qam_gray_neighbours_one_bit : forall (h : nat) (i j : N), (N.succ i < 2 ^ N.of_nat h)%N -> (j < 2 ^ N.of_nat h)%N ->
+  GridGeom.lham (GridGeom.qam_label h i j) (GridGeom.qam_label h (N.succ i) j) = 1%nat /\
+  GridGeom.lham (GridGeom.qam_label h j i) (GridGeom.qam_label h j (N.succ i)) = 1%nat.
+Proof. exact GridGeom.qam_gray_neighbours. Qed.
+Print Assumptions C14_qam_gray_neighbours_one_bit.
